@@ -3,6 +3,7 @@ package main
 // Evaluation of spec expressions to SMT terms, type-directed (go/types).
 
 import (
+	"golang.org/x/tools/go/ssa"
 	"fmt"
 	"go/constant"
 	"go/token"
@@ -933,6 +934,49 @@ func (c *SpecCtx) evalCall(e *ECall) Val {
 		sv := c.eval(e.Args[0])
 		c.enc().trusted["library contract: strings.ToLower: deterministic function of its arguments, otherwise unconstrained"] = true
 		return Val{T: enc.uf("ext.strings.ToLower.0", []string{"Str"}, "Str", sv.T), Typ: types.Typ[types.String]}
+	case "trimprefix":
+		// strings.TrimPrefix, same model as the library call: s[len(p):] if HasPrefix(s, p) else s
+		sv := c.eval(e.Args[0])
+		pv := c.eval(e.Args[1])
+		enc.addPre("strhasprefix", "(declare-fun strhasprefix (Str Str) Bool)")
+		c.enc().trusted["library contract: strings.TrimPrefix: s[len(p):] if HasPrefix(s,p) else s"] = true
+		sub := c.vc.strSub(sv.T, fmt.Sprintf("(strlen %s)", pv.T), fmt.Sprintf("(strlen %s)", sv.T))
+		return Val{T: fmt.Sprintf("(ite (strhasprefix %s %s) %s %s)", sv.T, pv.T, sub, sv.T), Typ: types.Typ[types.String]}
+	case "ext":
+		// ext("pkg.Func", k, args...): result k of a deterministic library function, as the same uninterpreted
+		// function the VC generator uses for calls of it
+		if len(e.Args) < 2 {
+			c.fail("ext(name, k, args...)")
+		}
+		nlit, okn := e.Args[0].(*EStr)
+		kv := c.eval(e.Args[1])
+		if !okn || !kv.isConst() {
+			c.fail("ext: name and result index must be constants")
+		}
+		full := nlit.Val
+		k64, _ := constant.Int64Val(kv.Const)
+		dot := strings.LastIndex(full, ".")
+		var fn *ssa.Function
+		if dot > 0 {
+			if pk := c.vc.prog.SSA.ImportedPackage(full[:dot]); pk != nil {
+				fn = pk.Func(full[dot+1:])
+			}
+		}
+		if fn == nil || int(k64) >= fn.Signature.Results().Len() {
+			c.fail("ext: unknown library function or result index: %s", full)
+		}
+		var sorts, ts []string
+		for _, a := range e.Args[2:] {
+			av := c.eval(a)
+			if av.isConst() {
+				av = c.materialize(av, nil)
+			}
+			sorts = append(sorts, enc.sortOf(av.Typ))
+			ts = append(ts, av.T)
+		}
+		rt := fn.Signature.Results().At(int(k64)).Type()
+		c.enc().trusted["library contract: "+full+": deterministic function of its arguments, otherwise unconstrained"] = true
+		return Val{T: enc.uf(fmt.Sprintf("ext.%s.%d", sanitize(full), k64), sorts, enc.sortOf(rt), ts...), Typ: rt}
 	case "trimsuffix":
 		sv := c.eval(e.Args[0])
 		tv := c.eval(e.Args[1])
